@@ -320,6 +320,7 @@ func run(c Case, r *pbt.R) {
 		recSeq := uint64(0)
 		var issued [][]byte // cookies issued so far, in order
 		var recvAt, ackAt []time.Duration
+		junkKind := map[time.Duration]string{} // instants of non-ClientHello handshake records
 		recvBytes := 0
 		dead := func() bool {
 			select {
@@ -385,6 +386,26 @@ func run(c Case, r *pbt.R) {
 				n.Inject("C", "S", d)
 				scen.Settle()
 				ackAt = append(ackAt, n.Now())
+				time.Sleep(time.Millisecond)
+				nNonAccepting++
+
+				continue
+			}
+			if st.Cookie == "hs-finished" || st.Cookie == "hs-emptyfrag" {
+				// not a ClientHello either: a handshake record of another message type. hs-finished: a Finished
+				// header with message_seq 0 and no body; hs-emptyfrag: a zero-length fragment of a 100-byte
+				// Certificate with message_seq 1. Alone at its instant.
+				time.Sleep(time.Millisecond)
+				hs := []byte{20, 0, 0, 0, 0, 0, 0, 0, 0, 0, 0, 0}
+				if st.Cookie == "hs-emptyfrag" {
+					hs = []byte{11, 0, 0, 100, 0, 1, 0, 0, 0, 0, 0, 0}
+				}
+				d := append([]byte{22, 0xfe, 0xfd, 0, 0, 0, 0, 0, 0, byte(recSeq >> 8), byte(recSeq), 0, 12}, hs...)
+				recSeq++
+				n.Inject("C", "S", d)
+				scen.Settle()
+				ackAt = append(ackAt, n.Now())
+				junkKind[n.Now()] = st.Cookie
 				time.Sleep(time.Millisecond)
 				nNonAccepting++
 
@@ -482,6 +503,11 @@ func run(c Case, r *pbt.R) {
 				case "HVR", "HRR":
 					requests++
 					for _, a := range ackAt {
+						if a == ev.T && !isRecvInstant(ev.T) && junkKind[a] != "" {
+							r.Failf("C13|"+ver+"|cookie-request-in-response-to-other-handshake-record", "cookie request emitted at %v in response to a handshake record that is no ClientHello (%s), no ClientHello arrived then (hellos at %v)", ev.T, junkKind[a], recvAt)
+
+							return
+						}
 						if a == ev.T && !isRecvInstant(ev.T) {
 							r.Failf("C13|"+ver+"|cookie-request-in-response-to-ack", "cookie request emitted at %v in response to a plaintext ACK record, no ClientHello arrived then (hellos at %v)", ev.T, recvAt)
 
@@ -583,7 +609,7 @@ func gen(t *rapid.T) Case {
 	ns := rapid.IntRange(1, 5).Draw(t, "nsteps")
 	for i := 0; i < ns; i++ {
 		st := Step{
-			Cookie: rapid.SampledFrom(append(append([]string(nil), cookies...), "ack")).Draw(t, "cookie"),
+			Cookie: rapid.SampledFrom(append(append([]string(nil), cookies...), "ack", "hs-finished", "hs-emptyfrag")).Draw(t, "cookie"),
 			Alter:  "none",
 			GapMs:  rapid.SampledFrom([]int{0, 0, c.IvlMs / 2, c.IvlMs, 10 * c.IvlMs, 300000}).Draw(t, "gap"),
 			Frag:   rapid.IntRange(0, 4).Draw(t, "frag") == 0,
